@@ -255,8 +255,9 @@ def malformed_probe(job):
     rep = re.search(r"(ERROR: AddressSanitizer: [^\n]*|runtime error: [^\n]*|AddressSanitizer:DEADLYSIGNAL)", errs)
     if rep:
         problems.append("sanitizer report: " + rep.group(1))
-    elif rc == "timeout" and len(data) < 4000:
-        # (a few thousand bytes are handled in milliseconds: 45 seconds without an end is non-termination)
+    elif rc == "timeout" and kind.startswith("corpus:") and len(data) < 4000:
+        # (the small files of the corpus are handled in milliseconds: 45 seconds without an end is non-termination; a generated
+        # file may ask for an enormous automaton - a{99999999} under -Ca - and is only counted as inconclusive)
         problems.append("flex does not terminate: no end after 45 seconds on an input of %d bytes" % len(data))
     elif rc == "timeout":
         note = "timeout"
@@ -329,7 +330,7 @@ def main(tier):
     nob, ngood, details = engine.obligations(ck, "Properties_C16.v")
     assumptions = ["PARTIAL: robustness on all input files cannot be proved without a model of the whole of flex; it is explored with generated "
                    "malformed specifications against an ASan/UBSan build of flex rebuilt from /repo",
-                   "timeouts (45 s) on inputs of 4000 bytes and more are counted as inconclusive, not as violations; on smaller inputs they are non-termination",
+                   "timeouts (45 s) on generated inputs are counted as inconclusive, not as violations; on the small files of the corpus they are non-termination",
                    "the exit-status fold is proved for the modelled handler (coq/ExitStatus.v); that each stage exits non-zero on an incomplete "
                    "output is checked by write-failure injection on every output"]
     with Scratch("c16") as scratch:
